@@ -9,10 +9,17 @@ use std::collections::HashMap;
 pub mod astproj;
 pub mod docspace;
 pub mod rangecheck;
+pub mod semacommon;
 pub mod seqspace;
 pub mod c02;
 pub mod c03;
 pub mod c04;
+pub mod c05;
+pub mod c06;
+pub mod c07;
+pub mod c08;
+pub mod c09;
+pub mod c10;
 pub mod c20;
 
 pub type Results = HashMap<String, ParseFileResult<String>>;
